@@ -262,6 +262,13 @@ def check(an: Analysis) -> None:
         lo, hi = gsa.count_range(lambda n: n in dxn, gsa.entry, lambda n: n.kind in ("exit-return", "exit-raise"), skip_edge=skipnone2)
         if hi > 1:
             ob.fail(sa, dxn[0].ast, f"disposables can be exited {hi} times on one path through the scope exit")
+        # a cleanup error raised by Disposables.__aexit__ leaves ScopeContext.__aexit__ as an exception, never as a normal return
+        dxa = [n for n in gsa.nodes if n.kind == "await" and isinstance(n.ast.value, ast.Call) and an.callee(sa, n.ast.value) == c02.D_EXIT]  # type: ignore[union-attr]
+        starts = [t for n in dxa for t in n.out("exc")]
+        if starts:
+            w = gsa.search(starts, lambda n: n.kind == "exit-return", include_start=True)
+            if w is not None:
+                ob.fail(sa, w[0].ast or dxn[0].ast, "an error raised by the disposables' cleanup can be dropped by the scope exit (it returns normally / lets only the body's exception through): cleanup errors must surface to the caller", CFG.show_path([dxa[0]] + w))
 
     # ------------------------------------------------------------------ C08.7 normalisation of what a disposable yields
     ob = an.ob("C08.7", "K2", "_initialize: None -> (), a single State -> (state,), otherwise the yielded iterable itself, untouched (evaluated for the three kinds of value a disposable can yield; works for match and if/isinstance forms)", [f"{D}._initialize"])
